@@ -46,4 +46,21 @@ run)
   done
   git -C /repo checkout -- . ; git -C /repo status --short | head -2
   ;;
+matrix)
+  # every stored seeded change against the check of its own property (regression test of the checks)
+  for d in /verif/seeded/*/; do
+    name=$(basename $d); prop=$(python3 -c "import json;print(json.load(open('$d/meta.json'))['property'])")
+    cd /repo && git apply $d/patch.diff || { echo "$name: patch does not apply"; continue; }
+    cd /verif
+    r=$(./vcheck $prop 2>&1 | grep -E "VIOLATION|quick:" | tr '\n' ' ' | sed -e 's/replay=[^ ]*//')
+    git -C /repo checkout -- .
+    case "$r" in
+      *no-failing-input-found*) v="DIVERGENCE-ONLY";;
+      *VIOLATION*) v="CONCRETE";;
+      *) v="MISSED";;
+    esac
+    echo "$name $v | $r"
+  done
+  git -C /repo status --short | head -2
+  ;;
 esac
